@@ -531,4 +531,218 @@ Proof.
     split; [eapply inv4_event; eassumption|eapply inv5_event; eassumption].
 Qed.
 
+
+(* ---- deadlock freedom ---- *)
+Lemma forallb_false_ex' {A} (p : A -> bool) l : forallb p l = false -> exists x, In x l /\ p x = false.
+Proof.
+  induction l as [|a l IH]; [discriminate|]. cbn. destruct (p a) eqn:E.
+  - intros H. destruct (IH H) as (x & A1 & A2). exists x. auto.
+  - intros _. exists a. auto.
+Qed.
+
+Definition blocked_join (p : pc) : bool := match p with PCall _ _ | PJoin _ => true | _ => false end.
+
+(* a live thread that cannot step waits for a permit, for a pending result, or for its callees *)
+Lemma blocked_shape s id : inv1 w par s -> inv2 w s -> inv4 w s -> id < nthr s -> ended (tpc (thr s id)) = false ->
+  step w s id = None ->
+  (permits s = 0 /\ hexp (thr s id) = false) \/
+  (exists o, tpc (thr s id) = RWait o /\ oclosed (objs s o) = false) \/
+  (blocked_join (tpc (thr s id)) = true /\ hexp (thr s id) = false /\
+   exists i, i < length (tslots (thr s id)) /\ started (tpc (thr s id)) i /\ nth_error (tslots (thr s id)) i = Some None).
+Proof.
+  intros Hi Hj Hx Hid Hl Hs. pose proof (i_thr _ _ _ Hi id Hid) as Ht.
+  pose proof (cancelled_false w par s (thr s id) Hi) as Hc.
+  pose proof (t_hold _ _ _ Ht) as Hh. pose proof (t_slots _ _ _ Ht) as Tsl. pose proof (t_start _ _ _ Ht) as Tst.
+  pose proof (t_root _ _ _ Ht) as Tr. pose proof (t_host _ _ _ Ht) as Th.
+  unfold step in Hs. apply Nat.ltb_lt in Hid. rewrite Hid in Hs. apply Nat.ltb_lt in Hid.
+  destruct (step_local w s id) as [e|] eqn:El.
+  - (* only an acquire with no free permit *)
+    left. destruct (e_sem e) eqn:Es; try discriminate. destruct (permits s) eqn:Ep; [|discriminate]. split; [reflexivity|].
+    unfold hexp. clear Hs. local_cases El; cbn in Es; try discriminate; try reflexivity.
+    all: try (unfold do_release in Es; repeat match type of Es with context [if ?x then _ else _] => destruct x end; discriminate).
+  - right. clear Hs. unfold step_local in El. cbv zeta in El.
+    destruct (tpc (thr s id)) eqn:Epc; try discriminate;
+      repeat match type of El with
+             | context [match ?x with _ => _ end] => destruct x eqn:?
+             | context [if ?x then _ else _] => destruct x eqn:?
+             end; try discriminate.
+    all: try (unfold do_release in El; repeat match type of El with context [if ?x then _ else _] => destruct x end; discriminate).
+    all: try solve [destruct (Tr eq_refl) as (_ & _ & R & Rc & Rr & _); first [discriminate | exfalso; eapply Rc; reflexivity
+                                                                               | exfalso; eapply Rr; reflexivity]].
+    all: try solve [destruct (Tsl _ eq_refl) as (grp & G1 & G2); congruence].
+    + left. exists o. split; [reflexivity|]. apply orb_false_iff in Heqb. apply Heqb.
+    + (* PStart: the group has an element at every index below the counter *)
+      exfalso. destruct (Tsl _ eq_refl) as (grp & G1 & G2). destruct (Tst _ _ _ eq_refl) as [_ Hle].
+      match goal with Hg : nth_error (groups _ _ _) _ = Some ?l, Hn : nth_error ?l _ = None |- _ =>
+        rewrite G1 in Hg; inversion Hg; subst; apply nth_error_None in Hn; lia end.
+    + right. split; [reflexivity|]. split; [unfold hexp; rewrite Epc; match goal with Hn : nth_error _ 0 = _ |- _ => rewrite Hn end; reflexivity|].
+      exists 0. repeat split; [|assumption]. apply nth_error_Some. congruence.
+    + exfalso. pose proof (x_pcall _ _ Hx id _ _ Hid Epc) as Hp.
+      match goal with Hn : nth_error _ 0 = None |- _ => apply nth_error_None in Hn; lia end.
+    + right. split; [reflexivity|]. split; [unfold hexp; rewrite Epc; reflexivity|].
+      match goal with Hf : slots_full _ = false |- _ => unfold slots_full in Hf; destruct (forallb_false_ex' _ _ Hf) as (x & Hin & Hx0) end.
+      destruct x as [r|]; [discriminate|]. apply In_nth_error in Hin. destruct Hin as [i Hi0]. exists i.
+      repeat split; [apply nth_error_Some; congruence|assumption].
+    + exfalso. destruct (tkey (thr s id)) as [k|] eqn:Ek.
+      * destruct (Th ltac:(discriminate) eq_refl) as [(hp & hi & g & grp & d & H1 & _)]. congruence.
+      * destruct (Tr eq_refl) as (_ & _ & _ & _ & Rr & _). eapply Rr; reflexivity.
+Qed.
+
+
+Lemma blocked_join_pubd p : blocked_join p = true -> exists g, pubd p = Some g.
+Proof. destruct p; try discriminate; intros _; eexists; reflexivity. Qed.
+
+(* L waits for the leader L' of one of the dependencies of its current Resolve call *)
+Definition waits (s : state) (L L' : nat) : Prop :=
+  exists h i g grp c d,
+    h < nthr s /\ thost (thr s h) = Some (L, i) /\ tkey (thr s h) = Some d /\ tcaller (thr s h) = tkey (thr s L) /\
+    pubd (tpc (thr s L)) = Some g /\ nth_error (groups w s L) g = Some grp /\ nth_error grp i = Some d /\
+    tkey (thr s L) = c /\ L' < nthr s /\ tkey (thr s L') = Some d /\ blocked_join (tpc (thr s L')) = true /\
+    (h = L' \/ exists o, tpc (thr s h) = RWait o).
+
+Definition all_blocked (s : state) : Prop := forall t, t < nthr s -> step w s t = None.
+
+Lemma successor s L : inv1 w par s -> inv2 w s -> inv4 w s -> inv5 s -> all_blocked s -> 0 < permits s ->
+  L < nthr s -> blocked_join (tpc (thr s L)) = true -> exists L', waits s L L'.
+Proof.
+  intros Hi Hj Hx Hz Hab Hperm HL Hbj.
+  assert (HlL : ended (tpc (thr s L)) = false) by (destruct (tpc (thr s L)); try discriminate; reflexivity).
+  destruct (blocked_shape s L Hi Hj Hx HL HlL (Hab L HL)) as [[F _]|[(o & F & _)|(_ & _ & i & I1 & I2 & I3)]];
+    [lia|rewrite F in Hbj; discriminate|].
+  destruct (y_child _ _ (z_thr _ Hz L HL) i I1 I2 I3) as (h & C1 & C2 & C3).
+  pose proof (i_thr _ _ _ Hi h C1) as Hth.
+  assert (Hkh : tkey (thr s h) <> None).
+  { intros Hk. destruct (t_root _ _ _ Hth Hk) as [R _]. congruence. }
+  destruct (t_host _ _ _ Hth Hkh C2) as [(hp & hi & g & grp & d & H1 & H2 & H3 & H4 & H5 & H6 & H7 & H8 & H9)].
+  rewrite C3 in H1. inversion H1; subst hp hi.
+  assert (Hpg : pubd (tpc (thr s L)) = Some g).
+  { destruct (tsync (thr s h)); [destruct H9 as [_ [nw E]]; rewrite E; reflexivity|].
+    destruct H9 as [_ E]. destruct (tpc (thr s L)); cbn in E; try contradiction; cbn.
+    - destruct E as (-> & _). reflexivity. - destruct E as (-> & _). reflexivity. - subst; reflexivity. - subst; reflexivity. }
+  destruct (blocked_shape s h Hi Hj Hx C1 C2 (Hab h C1)) as [[F _]|[(o & F1 & F2)|(F1 & _ & _)]]; [lia| |].
+  - (* the callee waits for the pending result of d: its leader *)
+    destruct (u_waiter _ _ _ (j_thr _ _ Hj h C1) d o H7 ltac:(rewrite F1; reflexivity)) as [W1 _].
+    destruct (j_leader _ _ Hj d o W1 F2) as (L' & Q1 & Q2 & Q3 & Q4).
+    assert (HlL' : ended (tpc (thr s L')) = false) by (destruct (tpc (thr s L')); try discriminate; reflexivity).
+    destruct (blocked_shape s L' Hi Hj Hx Q1 HlL' (Hab L' Q1)) as [[F _]|[(o' & F & _)|(G1 & _ & _)]];
+      [lia|rewrite F in Q3; discriminate|].
+    exists L', h, i, g, grp, (tkey (thr s L)), d. repeat split; auto. right. exists o. assumption.
+  - exists h, h, i, g, grp, (tkey (thr s L)), d. repeat split; auto.
+Qed.
+
+Lemma argmax (f : nat -> nat) (C : list nat) : C <> [] -> exists T, In T C /\ forall x, In x C -> f x <= f T.
+Proof.
+  induction C as [|a C IH]; [congruence|]. intros _. destruct C as [|b C].
+  - exists a. split; [left; reflexivity|]. intros x [<-|[]]. lia.
+  - destruct (IH ltac:(discriminate)) as (T & HT & Hmax).
+    destruct (le_lt_dec (f a) (f T)).
+    + exists T. split; [right; assumption|]. intros x [<-|Hx]; [assumption|apply Hmax; assumption].
+    + exists a. split; [left; reflexivity|]. intros x [<-|Hx]; [lia|]. specialize (Hmax x Hx). lia.
+Qed.
+
+Lemma filter_len_le {A} (p : A -> bool) (l : list A) : length (filter p l) <= length l.
+Proof. induction l as [|a l IH]; cbn; [lia|]. destruct (p a); cbn; lia. Qed.
+Lemma filter_length_lt {A} (p : A -> bool) (l : list A) x : In x l -> p x = false -> length (filter p l) < length l.
+Proof.
+  induction l as [|a l IH]; intros Hin Hp; [destruct Hin|]. cbn. destruct Hin as [->|Hin].
+  - rewrite Hp. pose proof (filter_len_le p l). lia.
+  - specialize (IH Hin Hp). destruct (p a); cbn; lia.
+Qed.
+
+(* no set of leaders can wait on each other around published dependency edges *)
+Lemma no_stuck_set s : inv1 w par s -> inv2 w s -> inv5 s ->
+  forall n C, length C <= n -> C <> [] ->
+  (forall L, In L C -> L < nthr s /\ (exists k, tkey (thr s L) = Some k) /\ blocked_join (tpc (thr s L)) = true /\
+                       exists L', In L' C /\ waits s L L') -> False.
+Proof.
+  intros Hi Hj Hz. induction n as [|n IH]; intros C Hlen Hne Hst.
+  - destruct C; [congruence|cbn in Hlen; lia].
+  - destruct (argmax (fun L => tpub (thr s L)) C Hne) as (T & HTC & Hmax). cbn beta in Hmax.
+    destruct (Hst T HTC) as (HT & (c & HcT) & HbT & L0 & HL0 & (h & i & g & grp & c' & d & W1 & W2 & W3 & W4 & W5 & W6 & W7 & W8 & W9 & W10 & W11 & W12)).
+    rewrite HcT in W8. subst c'.
+    destruct W12 as [->|(o & Ho)].
+    + (* the callee is itself the leader of d: it published after its caller *)
+      destruct (blocked_join_pubd _ W11) as [g0 Hg0].
+      pose proof (y_childpub _ _ (z_thr _ Hz L0 W9) T i g0 W2 Hg0) as Hlt. specialize (Hmax L0 HL0). lia.
+    + (* the callee finished its cycle check without finding the caller *)
+      rewrite HcT in W4.
+      destruct (y_done _ _ (z_thr _ Hz h W1) o T i c d (or_intror Ho) W2 W4 W3) as (D1 & D2 & D3).
+      set (D := tdisc (thr s h)) in *.
+      set (p := fun L => match tkey (thr s L) with Some k => memb k D | None => false end).
+      apply (IH (filter p C)).
+      * pose proof (filter_length_lt p C T HTC) as Hlt.
+        assert (p T = false) as HpT by (unfold p; rewrite HcT; apply memb_false; assumption). specialize (Hlt HpT). lia.
+      * intros Hnil. assert (In L0 (filter p C)) as Hin; [|rewrite Hnil in Hin; destruct Hin].
+        apply filter_In. split; [assumption|]. unfold p. rewrite W10. apply memb_In. assumption.
+      * intros L HL. apply filter_In in HL. destruct HL as [HLC HpL].
+        destruct (Hst L HLC) as (HLn & (x & HxL) & HbL & L2 & HL2 & Hw). split; [assumption|]. split; [eauto|]. split; [assumption|].
+        exists L2. split; [|assumption]. apply filter_In. split; [assumption|].
+        destruct Hw as (h2 & i2 & g2 & grp2 & c2 & y & V1 & V2 & V3 & V4 & V5 & V6 & V7 & V8 & V9 & V10 & V11 & V12).
+        unfold p in *. rewrite HxL in HpL. apply memb_In in HpL. rewrite V10. apply memb_In.
+        assert (HLT : L <> T) by (intros ->; rewrite HcT in HxL; inversion HxL; subst; contradiction).
+        apply (D3 x HpL L grp2 y); [|eapply nth_error_In; eassumption].
+        split; [assumption|]. split; [assumption|]. split; [eauto|].
+        destruct (blocked_join_pubd _ HbT) as [gT HgT].
+        pose proof (z_dist _ Hz L T g2 gT HLn HT HLT V5 HgT). specialize (Hmax L HLC). lia.
+Qed.
+
+Lemma holder_exists s : 0 < holders s -> exists id, id < nthr s /\ thold (thr s id) = true.
+Proof.
+  unfold holders. induction (nthr s) as [|n IH]; cbn; [lia|]. intros H.
+  destruct (thold (thr s n)) eqn:E.
+  - exists n. split; [lia|assumption].
+  - cbn in H. destruct IH as (id & A & B); [lia|]. exists id. split; [lia|assumption].
+Qed.
+
+Theorem no_deadlock inputs s : 1 <= par -> reach w par inputs s -> quiescent s = false ->
+  exists t s', step w s t = Some s'.
+Proof.
+  intros Hpar Hr Hq. destruct (reach_inv5 inputs s Hr) as (Hi & Hj & Hx & Hz).
+  destruct (existsb (fun t => match step w s t with Some _ => true | None => false end) (seq 0 (nthr s))) eqn:E.
+  - apply existsb_exists in E. destruct E as (t & _ & Ht). destruct (step w s t) as [s'|] eqn:Es; [eauto|discriminate].
+  - exfalso.
+    assert (Hab : all_blocked s).
+    { intros t Ht. destruct (step w s t) eqn:Es; [|reflexivity].
+      assert (existsb (fun t => match step w s t with Some _ => true | None => false end) (seq 0 (nthr s)) = true); [|congruence].
+      apply existsb_exists. exists t. split; [apply in_seq; lia|]. rewrite Es. reflexivity. }
+    (* a permit is free: a holder could always step *)
+    assert (Hperm : 0 < permits s).
+    { destruct (permits s) eqn:Ep; [|lia]. exfalso.
+      pose proof (i_perm _ _ _ Hi) as Hp. rewrite Ep in Hp.
+      destruct (holder_exists s ltac:(lia)) as (id & A & B).
+      pose proof (t_hold _ _ _ (i_thr _ _ _ Hi id A)) as Hh. rewrite B in Hh.
+      assert (Hl : ended (tpc (thr s id)) = false).
+      { unfold hexp in Hh. destruct (tpc (thr s id)); try discriminate; reflexivity. }
+      destruct (blocked_shape s id Hi Hj Hx A Hl (Hab id A)) as [[_ F]|[(o & F & _)|(_ & F & _)]]; try congruence.
+      unfold hexp in Hh. rewrite F in Hh. discriminate. }
+    set (C := filter (fun L => blocked_join (tpc (thr s L)) && match tkey (thr s L) with Some _ => true | None => false end)
+                     (seq 0 (nthr s))).
+    assert (HC : forall L, In L C <-> L < nthr s /\ blocked_join (tpc (thr s L)) = true /\ exists k, tkey (thr s L) = Some k).
+    { intros L. unfold C. rewrite filter_In, in_seq, andb_true_iff. split.
+      - intros [A [B D]]. split; [lia|]. split; [assumption|]. destruct (tkey (thr s L)); [eauto|discriminate].
+      - intros (A & B & (k & D)). split; [lia|]. rewrite B, D. auto. }
+    assert (Hsucc : forall L, L < nthr s -> blocked_join (tpc (thr s L)) = true -> exists L', In L' C /\ waits s L L').
+    { intros L HL Hb. destruct (successor s L Hi Hj Hx Hz Hab Hperm HL Hb) as (L' & Hw). exists L'. split; [|assumption].
+      destruct Hw as (h & i & g & grp & c & d & W1 & W2 & W3 & W4 & W5 & W6 & W7 & W8 & W9 & W10 & W11 & W12).
+      apply HC. split; [assumption|]. split; [assumption|eauto]. }
+    apply (no_stuck_set s Hi Hj Hz (length C) C (le_n _)).
+    + (* some thread is live; it, the leader it waits for, or that leader's successor is in C *)
+      unfold quiescent in Hq. destruct (forallb_false_ex' _ _ Hq) as (t0 & Hin & Hl0). apply in_seq in Hin.
+      assert (Ht0 : t0 < nthr s) by lia.
+      intros Hnil.
+      assert (Hex : exists L, L < nthr s /\ blocked_join (tpc (thr s L)) = true).
+      { destruct (blocked_shape s t0 Hi Hj Hx Ht0 Hl0 (Hab t0 Ht0)) as [[F _]|[(o & F1 & F2)|(F1 & _ & _)]]; [lia| |eauto].
+        pose proof (i_thr _ _ _ Hi t0 Ht0) as Htt.
+        destruct (tkey (thr s t0)) as [d|] eqn:Ek.
+        - destruct (u_waiter _ _ _ (j_thr _ _ Hj t0 Ht0) d o Ek ltac:(rewrite F1; reflexivity)) as [W1 _].
+          destruct (j_leader _ _ Hj d o W1 F2) as (L' & Q1 & Q2 & Q3 & Q4).
+          assert (HlL' : ended (tpc (thr s L')) = false) by (destruct (tpc (thr s L')); try discriminate; reflexivity).
+          destruct (blocked_shape s L' Hi Hj Hx Q1 HlL' (Hab L' Q1)) as [[F _]|[(o' & F & _)|(G1 & _ & _)]];
+            [lia|rewrite F in Q3; discriminate|eauto].
+        - destruct (t_root _ _ _ Htt Ek) as (_ & _ & R & _). rewrite F1 in R. discriminate. }
+      destruct Hex as (L & HL & Hb). destruct (Hsucc L HL Hb) as (L' & Hin' & _). rewrite Hnil in Hin'. destruct Hin'.
+    + intros L HL. apply HC in HL. destruct HL as (A & B & D). split; [assumption|]. split; [assumption|]. split; [assumption|].
+      apply Hsucc; assumption.
+Qed.
+
 End Inv5.
